@@ -95,14 +95,16 @@ ImmPos(arch, t) ==
       [] OTHER -> <<>>
 \* the bits a relocation of this type may write
 FieldBits(arch, t) ==
-    ({ImmPos(arch, t)[k] : k \in 1..Len(ImmPos(arch, t))} \ {-1})
+    LET pos == ImmPos(arch, t) IN
+    ({pos[k] : k \in 1..Len(pos)} \ {-1})
     \cup (CASE t = "ldr_imm12" -> {23}                \* U: add / subtract the offset
             [] t = "adr_imm12" -> {22, 23}            \* opcode ADD (0100) / SUB (0010)
             [] t = "bl_imm11" -> {10, 27, 29}         \* S, J2, J1
             [] OTHER -> {})
 Preserved(arch, t, before, after) ==
     /\ Len(before) = RelSize(t) /\ Len(after) = RelSize(t)
-    /\ \A k \in 0..(8 * RelSize(t) - 1) : k \notin FieldBits(arch, t) => Bit(after, k) = Bit(before, k)
+    /\ LET fb == FieldBits(arch, t) IN
+       \A k \in (0..(8 * RelSize(t) - 1)) \ fb : Bit(after, k) = Bit(before, k)
 
 -----------------------------------------------------------------------------
 (* decoding *)
